@@ -59,6 +59,13 @@ CLAIMS = {
          "an absent part prints nothing, a present one ' + ' body symbol; at the leaves the numbers shown are exactly the stored parts in order (so the rendering is injective). Derivative::fmt is modelled by hand "
          "(coq/ND/Hand/DerFmt.v). The implementation's to_string is tokenised, every number parsed back and compared by bits and position with the model's tokens and with an independent rendering of the documented layout. "
          "Trusted: Rust's float Display/parse round trip (re-checked on every case), nalgebra's 2-D matrix printer (numbers compared in reading order). Python repr = Display is decided under C17."),
+ 'C16': ("Coq proof on a structural model of serde_derive whose per-struct (key, member) tables are extracted from the macro-expanded source: coherence of the tables by computation, round trip for every nesting by induction on the type code; serde_json round trips compared with the model",
+         "The serde_derive output in the macro-expanded source is read by tools/gen_serde.py: for every scalar struct the (key, member) pairs in serialization order and the (key, member) pairs the Deserialize visitor "
+         "assigns (so skip / rename / a swapped field change the tables). Theorems (Props/C16.v, axiom-free): the extracted tables are coherent (same pairs on both sides, distinct keys, exactly the declared members in "
+         "declaration order -- by vm_compute on the regenerated tables); for every type built by nesting the five scalar structs over a float leaf and every leaf codec that round-trips the leaf, de (ser v) = Some v "
+         "(induction on the type code, Hand/Serde.v); the keys are exactly the documented names in order. The implementation's serde_json round trip is run on all scalar types, f32/f64 and nestings to depth 3: every part "
+         "bit for bit, and the key sequence of the JSON text against the model. Trusted: serde_derive's and serde_json's semantics as modelled (map with named entries), the leaf float codec (values restricted to those "
+         "a plain float round-trips through the same build)."),
 }
 props = [json.loads(l) for l in open('/verif/properties.jsonl')]
 checks = []
